@@ -460,6 +460,49 @@ func run(e *core.Env) {
 		}
 		e.Probe("second_wrap_on_one_session")
 	}
+	// ---- the priority class wraps on its own (a quarter of the end-to-end runs) ----
+	// The sender refuses to seal at the wrap (that refusal is outside the claim). What it must
+	// not do is carry on: without a new key every further priority number was used before.
+	// The counter is moved forward by the harness (standing in for four billion frames); the
+	// numbers sealed before the jump are remembered per key.
+	if !link && tp.Chance(1, 4) {
+		type pk struct {
+			key string
+			seq uint32
+		}
+		used := map[pk]bool{}
+		refusals := 0
+		sealPrio := func(k int) {
+			f, _ := S.Inst.Builder.NewFrameV1(S.IP, R.IP, frame.RouterCtrl, nil, []byte(fmt.Sprintf("priority wrap frame %d", k)), nil)
+			defer f.ReturnToPool()
+			if err := f.Seal(sSess); err != nil {
+				refusals++
+				return
+			}
+			id := pk{string(sh.OutKey()), f.SequenceNum()}
+			if used[id] {
+				e.Fail("sequence-number-reused-under-one-key/priority-class-wrapped", "priority number %d sealed twice under one key (after the priority class wrapped and was refused %d times): the AEAD nonce repeats", f.SequenceNum(), refusals)
+			}
+			used[id] = true
+		}
+		sh.PrioSetOut(0)
+		for k, n := 0, 5+tp.Intn(40); k < n; k++ {
+			sealPrio(k)
+		}
+		sh.PrioSetOut(0xFFFFFFFF - uint32(tp.Intn(12)))
+		for k, n := 0, 14+tp.Intn(50); k < n; k++ {
+			sealPrio(100 + k)
+			if tp.Chance(1, 5) {
+				// regular traffic goes on (far from its own wrap)
+				f, _ := S.Inst.Builder.NewFrameV1(S.IP, R.IP, frame.NetworkTraffic, nil, []byte("regular in between"), nil)
+				_ = f.Seal(sSess)
+				f.ReturnToPool()
+			}
+		}
+		if refusals > 0 {
+			e.Probe("priority_class_wrapped_and_was_refused")
+		}
+	}
 	if rolled && !link && len(e1p) > 0 {
 		e.Probe("prio_reset_after_rollover")
 	}
